@@ -183,3 +183,44 @@ def run(prog, chk):
                % (side == "left", "metadata" if sibmeta else "hash", gap if gap > 0 else "absent",
                   [(c[1], c[2][1:]) for c in q.calls() if str(c[1]).startswith("KSI_HashChainLink_set") or c[1] in ("getHashChainLinks",)]),
                loc=fg.loc(), fn=fg)
+
+    # ------------------------------------------------------------------ predicted height (fold over the forest)
+    chk.rule("C16.height", "calculateHighestLevel folds max(level, slot level) + 1 over the occupied slots, in slot order", floor=40)
+    fh = prog.fn("calculateHighestLevel", "tree_builder.c")
+    slen = prog.const("KSI_TREE_BUILDER_STACK_LEN") if "KSI_TREE_BUILDER_STACK_LEN" in prog.enum_consts else None
+    if slen is None:
+        slen = prog.macro_int("KSI_TREE_BUILDER_STACK_LEN") if hasattr(prog, "macro_int") else 0x100
+    bn, ln2 = fh.params[0]["n"], fh.params[1]["n"]
+    scen = []
+    for slots in ((), (0,), (1,), (0, 1), (0, 2), (1, 3), (0, 1, 2), (0, 2, 5), (7,), (0, slen - 1)):
+        for lv_in in (0, 1, 2, 5):
+            for shape in ("asc", "desc", "flat", "low"):
+                levels = {"asc": [s + 1 for s in range(len(slots))], "desc": [6 - 2 * s for s in range(len(slots))],
+                          "flat": [3] * len(slots), "low": [0] * len(slots)}[shape]
+                if not slots and shape != "flat":
+                    continue
+                scen.append((slots, tuple(levels), lv_in))
+    for slots, levels, lv_in in scen:
+        inputs = {bn: Ptr("B"), ln2: lv_in}
+        for s in range(slen):
+            inputs["B->stack[%d]" % s] = 0
+        for s, l in zip(slots, levels):
+            inputs["B->stack[%d]" % s] = Ptr("N%d" % s)
+            inputs["N%d->level" % s] = l
+        I = Interp(fh, inputs=inputs, on_unknown="stop", prog=prog, loop_bound=slen + 2)
+        paths = I.run()
+        chk.paths += len(paths)
+        if len(paths) != 1 or paths[0].undetermined:
+            raise AnalysisBroken("calculateHighestLevel: evaluation not determined for slots %s" % (slots,))
+        want = lv_in
+        for l in levels:
+            want = max(want, l) + 1
+        chk.ob("C16.height", "calculateHighestLevel[slots=%s,levels=%s,leaf=%d]" % (list(slots), list(levels), lv_in), paths[0].ret == want,
+               "closing the forest joins the carried node with each occupied slot in turn: expected height %d, source computes %s"
+               % (want, paths[0].ret), loc=fh.loc(), fn=fh, nontrivial=bool(slots))
+
+    # ------------------------------------------------------------------ ownership of the builder's error paths (shared with C19)
+    from .C19 import absorbed_obligations, ownership_obligations
+    chk.rule("C16.owner", "tree builder / block signer: owning locals released exactly once on every exit; a caller's node is never destroyed on an error exit", floor=10)
+    ownership_obligations(prog, chk, "C16.owner", {"tree_builder.c", "blocksigner.c"})
+    absorbed_obligations(prog, chk, "C16.owner", {"tree_builder.c", "blocksigner.c"})
